@@ -18,7 +18,9 @@ from translate import llist
 
 def lchar(ch):
     o = ord(ch)
-    if 32 <= o < 127 and ch not in "'\\\"":
+    if ch in "'\\\"":
+        return "'\\" + ch + "'"
+    if 32 <= o < 127:
         return "'" + ch + "'"
     return f'Char.ofNat {o}'
 
